@@ -19,7 +19,15 @@ import (
 
 // MV is the JSON-serialisable model of a "JSON-representable" lisp value.
 type MV struct {
-	K  string `json:"k"` // nil | bool | int | float | str | vec | list | map | expr (I indexes rtExprs: a float computed by the interpreter at run time)
+	// nil | bool | int | float | str | vec | list | map | expr (I indexes rtExprs:
+	// a float computed by the interpreter at run time) | ref (I indexes the
+	// case's Defs: ONE object wherever it is referenced; B = the occurrence is a
+	// fresh header made by LVal.Copy() over the same storage) | chain (L[0]
+	// nested under I containers, innermost first, kinds taken cyclically from
+	// the letters of S: v vector, l list, m map under the string key "k", y map
+	// under the symbol key k -- a compact spelling, so that a 10 000-deep case
+	// still fits a replay file).  See shared_test.go.
+	K  string `json:"k"`
 	B  bool   `json:"b,omitempty"`
 	I  int64  `json:"i,omitempty"`
 	FB uint64 `json:"fb,omitempty"` // float64 bits
@@ -54,7 +62,32 @@ const (
 
 // resolve replaces every expr leaf by the float the interpreter computes for
 // it (model side).  A program that does not yield a float is a harness error.
-func (m MV) resolve(e *elps) (MV, *vcommon.Failure) {
+func (m MV) resolve(e *elps) (MV, *vcommon.Failure) { return m.resolveIn(e, nil) }
+
+// resolveIn additionally expands ref and chain nodes: the result is the plain
+// TREE the value denotes (JSON has no sharing), which is what every oracle
+// works on.
+func (m MV) resolveIn(e *elps, defs []MV) (MV, *vcommon.Failure) {
+	switch m.K {
+	case "ref":
+		if m.I < 0 || int(m.I) >= len(defs) {
+			return m, vcommon.Failf("selfcheck/bad-ref", "ref %d outside the %d definitions", m.I, len(defs))
+		}
+		// a definition only refers to EARLIER definitions: acyclic by construction
+		return defs[m.I].resolveIn(e, defs[:m.I])
+	case "chain":
+		if len(m.L) != 1 || len(m.S) == 0 || m.I < 0 {
+			return m, vcommon.Failf("selfcheck/bad-chain", "malformed chain node")
+		}
+		inner, f := m.L[0].resolveIn(e, defs)
+		if f != nil {
+			return m, f
+		}
+		for i := 0; i < int(m.I); i++ {
+			inner = chainLevel(m.S[i%len(m.S)], inner)
+		}
+		return inner, nil
+	}
 	if m.K == "expr" {
 		v := e.evalExpr(int(m.I))
 		if v == nil || v.Type != lisp.LFloat {
@@ -68,7 +101,7 @@ func (m MV) resolve(e *elps) (MV, *vcommon.Failure) {
 	out := m
 	out.L = make([]MV, len(m.L))
 	for i := range m.L {
-		c, f := m.L[i].resolve(e)
+		c, f := m.L[i].resolveIn(e, defs)
 		if f != nil {
 			return m, f
 		}
@@ -92,8 +125,50 @@ func (m MV) depth() int {
 }
 
 // toLVal builds the value with the Go constructors only.
-func (m MV) toLVal() *lisp.LVal {
+func (m MV) toLVal() *lisp.LVal { return (&builder{}).build(m) }
+
+// builder builds a value whose ref nodes all denote ONE object per
+// definition (built on first use).
+type builder struct {
+	defs []MV
+	memo []*lisp.LVal
+}
+
+func newBuilder(defs []MV) *builder { return &builder{defs: defs, memo: make([]*lisp.LVal, len(defs))} }
+
+func (b *builder) build(m MV) *lisp.LVal {
 	switch m.K {
+	case "ref":
+		if b.memo[m.I] == nil {
+			b.memo[m.I] = (&builder{defs: b.defs[:m.I], memo: b.memo[:m.I]}).build(b.defs[m.I])
+		}
+		if m.B {
+			// a second header over the same storage (vector cells, map data);
+			// a list is copied cell by cell, its vectors and maps are not
+			return b.memo[m.I].Copy()
+		}
+		return b.memo[m.I]
+	case "chain":
+		v := b.build(m.L[0])
+		for i := 0; i < int(m.I); i++ {
+			switch m.S[i%len(m.S)] {
+			case 'v':
+				v = lisp.Array(nil, []*lisp.LVal{v})
+			case 'l':
+				v = lisp.QExpr([]*lisp.LVal{v})
+			default:
+				sm := lisp.SortedMap()
+				k := lisp.String("k")
+				if m.S[i%len(m.S)] == 'y' {
+					k = lisp.Symbol("k")
+				}
+				if r := sm.MapSet(k, v); r.Type == lisp.LError {
+					panic("model map set: " + r.String())
+				}
+				v = sm
+			}
+		}
+		return v
 	case "nil":
 		return lisp.Nil()
 	case "bool":
@@ -110,7 +185,7 @@ func (m MV) toLVal() *lisp.LVal {
 	case "vec", "list":
 		cells := make([]*lisp.LVal, len(m.L))
 		for i := range m.L {
-			cells[i] = m.L[i].toLVal()
+			cells[i] = b.build(m.L[i])
 		}
 		if m.K == "vec" {
 			return lisp.Array(nil, cells)
@@ -125,7 +200,7 @@ func (m MV) toLVal() *lisp.LVal {
 			} else {
 				kv = lisp.String(string(k.B))
 			}
-			if r := sm.MapSet(kv, m.L[i].toLVal()); r.Type == lisp.LError {
+			if r := sm.MapSet(kv, b.build(m.L[i])); r.Type == lisp.LError {
 				panic("model map set: " + r.String())
 			}
 		}
@@ -199,6 +274,12 @@ func (m MV) canon(b *strings.Builder) {
 		fmt.Fprintf(b, "f%x", m.FB)
 	case "expr":
 		fmt.Fprintf(b, "e%d", m.I)
+	case "ref":
+		fmt.Fprintf(b, "r%d/%v", m.I, m.B)
+	case "chain":
+		fmt.Fprintf(b, "chain%d%s(", m.I, m.S)
+		m.L[0].canon(b)
+		b.WriteByte(')')
 	case "str":
 		fmt.Fprintf(b, "%q", m.S)
 	case "vec", "list":
@@ -443,7 +524,7 @@ func (d *dumpCtx) cmpDump(m MV, n *jnode, path string) *vcommon.Failure {
 			return vcommon.Failf("dump/array-len", "%s: %d elements dumped, model has %d", path, len(n.arr), len(m.L))
 		}
 		for i := range m.L {
-			if f := d.cmpDump(m.L[i], n.arr[i], fmt.Sprintf("%s[%d]", path, i)); f != nil {
+			if f := d.cmpDump(m.L[i], n.arr[i], pIdx(path, i)); f != nil {
 				return f
 			}
 		}
@@ -486,7 +567,7 @@ func (d *dumpCtx) cmpDump(m MV, n *jnode, path string) *vcommon.Failure {
 			}
 		}
 		for i := range vals {
-			if f := d.cmpDump(vals[i], n.vals[i], fmt.Sprintf("%s{%q}", path, keys[i])); f != nil {
+			if f := d.cmpDump(vals[i], n.vals[i], pKey(path, keys[i])); f != nil {
 				return f
 			}
 		}
@@ -606,7 +687,7 @@ func cmpLoaded(e ev, v *lisp.LVal, path string) string {
 			return fmt.Sprintf("%s: vector of %d want %d", path, len(cells), len(e.elems))
 		}
 		for i := range cells {
-			if d := cmpLoaded(e.elems[i], cells[i], fmt.Sprintf("%s[%d]", path, i)); d != "" {
+			if d := cmpLoaded(e.elems[i], cells[i], pIdx(path, i)); d != "" {
 				return d
 			}
 		}
@@ -625,7 +706,7 @@ func cmpLoaded(e ev, v *lisp.LVal, path string) string {
 			if len(p.Cells) != 2 || p.Cells[0].Type != lisp.LString || p.Cells[0].Str != e.keys[i] {
 				return fmt.Sprintf("%s: entry %d has key %s want %q", path, i, describe(p.Cells[0]), e.keys[i])
 			}
-			if d := cmpLoaded(e.elems[i], p.Cells[1], fmt.Sprintf("%s{%q}", path, e.keys[i])); d != "" {
+			if d := cmpLoaded(e.elems[i], p.Cells[1], pKey(path, e.keys[i])); d != "" {
 				return d
 			}
 		}
@@ -645,6 +726,7 @@ func describe(v *lisp.LVal) string {
 
 type ValueCase struct {
 	V         MV   `json:"v"`
+	Defs      []MV `json:"defs,omitempty"` // objects that ref nodes denote; Defs[i] refers only to Defs[j], j < i
 	DumpSN    bool `json:"dump_sn"`    // :string-numbers on the dump
 	LoadSN    bool `json:"load_sn"`    // :string-numbers on the load
 	LoadEI    bool `json:"load_ei"`    // :exact-integers on the load
@@ -768,11 +850,14 @@ func needsEscape(s []byte, c *cls) bool {
 func checkValue(vc ValueCase, ctx *vcommon.Ctx) *vcommon.Failure {
 	c := newCls(ctx)
 	e := getElps()
-	raw := vc.V // may hold expr leaves; raw.toLVal() uses the interpreter's own floats
-	m, rf := raw.resolve(e)
+	raw := vc.V // may hold expr leaves; mk() uses the interpreter's own floats
+	m, rf := raw.resolveIn(e, vc.Defs)
 	if rf != nil {
 		return rf
 	}
+	// mk builds a fresh value; all ref nodes of one build share their object
+	mk := func() *lisp.LVal { return newBuilder(vc.Defs).build(raw) }
+	shared := classifyShared(raw, vc.Defs, c)
 	if hasExpr(raw) {
 		c.Class("float-computed-at-run-time")
 	}
@@ -789,7 +874,17 @@ func checkValue(vc ValueCase, ctx *vcommon.Ctx) *vcommon.Failure {
 		if d >= 100 {
 			c.Class("depth>=100")
 		}
+		if d >= 1000 {
+			c.Class("depth>=1000")
+		}
+		if d >= decoderMaxDepth-10 && d <= decoderMaxDepth {
+			c.Class("depth within 10 of the decoder's nesting limit (10000)")
+		}
+		if d > decoderMaxDepth {
+			c.Class("limit_zone/value nested deeper than the decoder's limit (10000)")
+		}
 	}
+	docDepth := m.depth()
 	c.Class(fmt.Sprintf("mode/dumpSN=%v,loadSN=%v,loadEI=%v", vc.DumpSN, vc.LoadSN, vc.LoadEI))
 	if vc.Bytes {
 		c.Class("path/bytes")
@@ -810,8 +905,18 @@ func checkValue(vc ValueCase, ctx *vcommon.Ctx) *vcommon.Failure {
 	}
 	// (a) dump: twice through the primary path, once through the other one,
 	// once through json:dump-message + json:message-bytes
-	var docs [4][]byte
-	for i := 0; i < 4; i++ {
+	// For values with shared parts and for deep ones a fifth dump goes through
+	// the VERY object the first dump was given (a dump must leave neither the
+	// value nor anything else behind), and that object is compared with the
+	// model afterwards.
+	again := shared || docDepth >= 40
+	var docs [5][]byte
+	var first *lisp.LVal
+	for i := 0; i < 5; i++ {
+		if i == 4 && !again {
+			docs[4] = docs[0]
+			break
+		}
 		fn, isBytes := dumpFn, vc.Bytes
 		if i == 2 {
 			fn, isBytes = otherDump, !vc.Bytes
@@ -820,13 +925,20 @@ func checkValue(vc ValueCase, ctx *vcommon.Ctx) *vcommon.Failure {
 			fn, isBytes = "json:dump-message", true
 		}
 		// a fresh LVal per call: determinism must not depend on object identity
-		v, pan := e.invoke(fn, raw.toLVal(), vc.OmitFalse, vc.ViaEval && i == 0, flag{"string-numbers", vc.DumpSN})
+		arg := mk()
+		if i == 0 {
+			first = arg
+		}
+		if i == 4 {
+			arg = first
+		}
+		v, pan := e.invoke(fn, arg, vc.OmitFalse, vc.ViaEval && i == 0, flag{"string-numbers", vc.DumpSN})
 		r, f := observe(fn, v, pan)
 		if f != nil {
 			return f
 		}
 		if r.err {
-			return vcommon.Failf("dump/error", "%s signalled %s (%s) for a JSON-representable value %s", fn, r.cond, r.msg, describe(m.toLVal()))
+			return vcommon.Failf("dump/error", "%s signalled %s (%s) for a JSON-representable value %s%s", fn, r.cond, r.msg, describe(m.toLVal()), sharedNote(vc))
 		}
 		if i == 3 {
 			if r.v.Type != lisp.LNative {
@@ -847,7 +959,7 @@ func checkValue(vc ValueCase, ctx *vcommon.Ctx) *vcommon.Failure {
 		docs[i] = b
 	}
 	doc := docs[0]
-	c.Note(fmt.Sprintf("dumped: %q", doc))
+	c.Note(fmt.Sprintf("dumped: %q", clip(doc, 0)))
 	if !bytes.Equal(doc, docs[1]) {
 		return vcommon.Failf("dump/nondeterministic", "dumping the same value twice gives %q and %q", doc, docs[1])
 	}
@@ -856,6 +968,14 @@ func checkValue(vc ValueCase, ctx *vcommon.Ctx) *vcommon.Failure {
 	}
 	if !bytes.Equal(doc, docs[3]) {
 		return vcommon.Failf("dump/string-vs-message", "%s gives %q but json:dump-message gives %q", dumpFn, doc, docs[3])
+	}
+	if !bytes.Equal(doc, docs[4]) {
+		return vcommon.Failf("dump/same-object-twice", "dumping the very same object a second time gives %q, the first time %q", docs[4], doc)
+	}
+	if again {
+		if d := cmpBuilt(m, first, "$"); d != "" {
+			return vcommon.Failf("dump/changes-its-argument", "after json:dump-* the dumped object differs from the value that was built: %s", d)
+		}
 	}
 	n, info, err := refParse(doc)
 	if err != nil {
@@ -905,6 +1025,12 @@ func checkValue(vc ValueCase, ctx *vcommon.Ctx) *vcommon.Failure {
 		return f
 	}
 	mode := fmt.Sprintf("string-numbers=%v exact-integers=%v", vc.LoadSN, vc.LoadEI)
+	if r.err && docDepth > decoderMaxDepth {
+		// documented limit (encode.go, loadableBytes): the decoder stops at
+		// 10000 levels; the dump side of such a value has been checked in full
+		c.Class("limit_zone/load refuses the dump of a value nested deeper than 10000")
+		return nil
+	}
 	if r.err {
 		key := "roundtrip/load-rejects-dump"
 		if r.cond == "json:integer-range-error" {
@@ -918,6 +1044,12 @@ func checkValue(vc ValueCase, ctx *vcommon.Ctx) *vcommon.Failure {
 			key = "roundtrip/value-exact-integers"
 		}
 		return vcommon.Failf(key, "load(dump(v)) under %s differs from v for document %q: %s", mode, doc, diff)
+	}
+	// every container of a loaded value is an object of its own, however many
+	// equal sub-documents the text holds (in-place edits -- append!, assoc! --
+	// must not show up elsewhere; the mutate sub-property does the edits)
+	if d := aliasedParts(r.v); d != "" {
+		return vcommon.Failf("roundtrip/loaded-parts-alias", "the value loaded from %q under %s is not a tree of distinct objects: %s", doc, mode, d)
 	}
 	if !vc.DumpSN && !vc.LoadSN {
 		norm := m.normLVal()
